@@ -119,30 +119,13 @@ func (m *Module) handleSetEntityAction(ctx context.Context, respond hwebsocket.R
 		return nil
 	}
 
-	if _, ok := session.EntityByID(entityAction.EntityId); !ok {
-		respond.Send(&hagallpb.ErrorResponse{
-			Type:      hagallpb.MsgType_MSG_TYPE_ERROR_RESPONSE,
-			Timestamp: timestamppb.Now(),
-			RequestId: req.RequestId,
-			Code:      hagallpb.ErrorCode_ERROR_CODE_BAD_REQUEST,
-		})
-		return nil
-	}
-
-	if !m.state.SetEntityActionIfNotOlder(entityAction) {
-		respond.Send(&hagallpb.ErrorResponse{
-			Type:      hagallpb.MsgType_MSG_TYPE_ERROR_RESPONSE,
-			Timestamp: timestamppb.Now(),
-			RequestId: req.RequestId,
-			Code:      hagallpb.ErrorCode_ERROR_CODE_BAD_REQUEST,
-		})
-		return nil
-	}
-
-	// The entity may have been removed by its owner since it was looked up;
-	// the action must not outlive it.
-	if _, ok := session.EntityByID(entityAction.EntityId); !ok {
-		m.state.RemoveEntityActions(entityAction.EntityId)
+	// The entity cannot be removed while the action is stored: either the
+	// removal that follows drops the action with it, or the entity is already
+	// gone and nothing is stored.
+	stored := false
+	if ok := session.WithEntity(entityAction.EntityId, func(*models.Entity) {
+		stored = m.state.SetEntityActionIfNotOlder(entityAction)
+	}); !ok || !stored {
 		respond.Send(&hagallpb.ErrorResponse{
 			Type:      hagallpb.MsgType_MSG_TYPE_ERROR_RESPONSE,
 			Timestamp: timestamppb.Now(),
